@@ -296,13 +296,13 @@ def run(ctx):
     drv = Driver("C15")
     try:
         rng = ctx.rng.fork(1)
-        for i in range(ctx.n(120, 2000)):
+        for i in range(ctx.n(300, 3000)):
             run_case(ctx, drv, gen_coords(rng.fork(i), i))
         rng = ctx.rng.fork(2)
-        for i in range(ctx.n(150, 3000)):
+        for i in range(ctx.n(300, 5000)):
             run_case(ctx, drv, gen_splat(rng.fork(i)))
         rng = ctx.rng.fork(3)
-        for i in range(ctx.n(18, 150)):
+        for i in range(ctx.n(45, 400)):
             run_case(ctx, drv, gen_align(rng.fork(i), i))
     finally:
         drv.close()
